@@ -2923,7 +2923,55 @@ def check(ctx):
     _rule5(model, rep)
     _rule6(model, rep)
     _rule7(ctx, rep)
+    _rule8(ctx, rep)
     return rep
+
+
+def _rule8(ctx, rep):
+    """the revision registering workers are compared with is switched during the reload step (state updating), i.e. before
+    load() flushes the crew and workers of the new revision start to register (added after seeded change C11-6: the
+    assignment moved into FSM._pipeline, after the scan; an old-revision worker registering in that window was accepted
+    and given a task after the reload, a new-revision worker was turned away)"""
+    import ast as _ast
+
+    from ..util import norm as _norm, where as _where
+
+    prog, cg = ctx.prog, ctx.cg
+    REV = 'dawgie.context.git_rev'
+    FSM = 'dawgie.pl.state.FSM'
+    with rep.rule(
+        'R-C11-8',
+        'outside dawgie.context the live revision (context.git_rev) is assigned only by code that runs in the reload step (reached from FSM.reload and not from FSM.load)',
+        floor=1,
+        breaks='after an update the registration test compares workers with the previous revision while the crew is being rebuilt: stale workers are listed and handed tasks, current ones are refused',
+    ) as r:
+        from_reload = cg.reachable([FSM + '.reload'], kinds={'direct', 'thread', 'reactor'})
+        from_load = cg.reachable([FSM + '.load'], kinds={'direct', 'thread', 'reactor'})
+        writers = []
+        for fn in prog.funcs.values():
+            if fn.module.name == 'dawgie.context':
+                continue
+            for n in fn.own_nodes():
+                tg = n.targets if isinstance(n, _ast.Assign) else ([n.target] if isinstance(n, (_ast.AugAssign, _ast.AnnAssign)) else [])
+                for t in tg:
+                    if isinstance(t, _ast.Attribute) and prog.resolve_in(t, fn) == REV:
+                        writers.append((fn, n))
+        if not writers:
+            raise AnalysisError('no assignment of dawgie.context.git_rev outside dawgie.context (FSM._reload) found')
+        for fn, n in writers:
+            r.instance()
+            rep.analysed(fn)
+            root = fn
+            while root.parent is not None:
+                root = root.parent
+            ok = root.qname in from_reload and root.qname not in from_load
+            r.check(
+                ok,
+                f'{fn.qname}:{_norm(n)[:60]}',
+                _where(fn, n),
+                'assigned in the reload step',
+                f'{fn.qname} assigns the live revision but is {"also reached from FSM.load" if root.qname in from_load else "not reached from FSM.reload"}: the switch must happen before load() rebuilds the crew',
+            )
 
 
 def _rule7(ctx, rep):
@@ -3051,6 +3099,7 @@ _NOTIFY_IF = (
 )
 
 VARIANTS = [
+    V('live revision switched while loading', 'B', 'pl/state.py', 'FSM._pipeline', 'dawgie.db.open()', 'dawgie.db.open()\n            dawgie.context.git_rev = dawgie.context._rev()', 'R-C11-8'),
     # ------------------------------------------------------------ R-C11-1 breaking
     V('hand listed before the revision test', 'B', _F, 'Hand._reg', _GATE, '_workers.append(self)\n        ' + _GATE, 'R-C11-1'),
     V('revision test inverted at registration', 'B', _F, 'Hand._reg', _GATE, 'if msg.revision == dawgie.context.git_rev:', 'R-C11-1'),
